@@ -12,7 +12,7 @@ from vt import sym
 from vt.props._recv import BaseOnly, InlineExecutor, Lab, ackable, encode, make_broker, make_middleware
 
 OUTCOMES = ("return", "raise_exc", "raise_base", "no_result", "cancelled", "timeout")
-EXTRA_OUTCOMES = ("raise_system_exit",)  # used by C07 only
+EXTRA_OUTCOMES = ("raise_system_exit", "timeout0")  # used by C07 only; timeout0: a timeout label of 0 on a task that never finishes
 ACKS = ("when_received", "when_executed", "when_saved")
 
 
@@ -42,7 +42,7 @@ def run(c: sym.Ctx, spec: Dict[str, Any], n_msgs: int = 1) -> Lab:
     async_ack = pick(c, spec, "async_ack", (False, True))
     target_kind = pick(c, spec, "target", ("async", "sync"))
     outcomes = [pick(c, spec, f"outcome{i}", OUTCOMES if target_kind == "async" else OUTCOMES[:5]) for i in range(n_msgs)]
-    tl = [outcomes[i] == "timeout" or pick(c, spec, f"timeout_label{i}", (False, True)) for i in range(n_msgs)]
+    tl = [outcomes[i] in ("timeout", "timeout0") or pick(c, spec, f"timeout_label{i}", (False, True)) for i in range(n_msgs)]
     bfail = [pick(c, spec, f"backend_fail{i}", (False, True)) for i in range(n_msgs)]
     deps = spec.get("deps", "none")
     propagate = spec.get("propagate", True)
@@ -112,7 +112,7 @@ def run(c: sym.Ctx, spec: Dict[str, Any], n_msgs: int = 1) -> Lab:
             async def target(i: int) -> Any:
                 lab.rec("task_start", i)
                 try:
-                    if outcome_of(i) == "timeout":
+                    if outcome_of(i) in ("timeout", "timeout0"):
                         await lab.gate(f"hang:{i}")  # never opened: only the timer can end it
                         return ("late", i)
                     if spec.get("task_gate", n_msgs > 1):
@@ -268,7 +268,7 @@ def run(c: sym.Ctx, spec: Dict[str, Any], n_msgs: int = 1) -> Lab:
     for i in range(n_msgs):
         labels: Dict[str, Any] = {"user": f"L{i}"}
         if tl[i]:
-            labels["timeout"] = 5
+            labels["timeout"] = 0 if outcomes[i] == "timeout0" else 5
         # type information only for some labels (as when a pre_send middleware or a foreign producer added the others)
         data = encode(broker, "t", tid_of(i), [i], labels, labels_types={"user": 3} if spec.get("partial_types", True) else None)
         msgs.append(ackable(lab, i, data, async_ack, gate_ack=n_msgs > 1) if spec.get("ackable", True) else data)
